@@ -97,9 +97,7 @@ Proof.
     destruct (arr_get_ok (m_fields (mp_msg st)) fi ltac:(lia)) as [old Eold]. rewrite Eold. cbn [bind].
     pose proof (extract_field_total (mp_raw_bytes st)) as Hex.
     change (mp_raw_bytes (mp_set_field_index st fi)) with (mp_raw_bytes st). destruct (extract_field (mp_raw_bytes st)) as [rem r]. cbn [snd] in Hex.
-    assert (Et : exists t, match r with Ok t => Ok t | Err _ => Ok old | Panic => Panic | OutOfFuel => OutOfFuel end = Ok t).
-    { destruct Hex as [H1 H2]. destruct r; try congruence; eauto. }
-    destruct Et as [t Et]. cbv beta iota. rewrite Et. cbn [bind].
+    cbv beta iota. destruct Hex as [Hx1 Hx2]. destruct r as [t|e| |]; try congruence; cbn [bind]; [|exact I].
     destruct (arr_set_ok (m_fields (mp_msg st)) fi t ltac:(lia)) as (fields' & Eset & Lset). rewrite Eset. cbn [bind].
     set (st1 := mp_set_trailer_bytes (mp_parsed (mp_set_field_index st fi) fi fields' rem) rem).
     assert (Inv1 : mp_inv n st1) by (unfold mp_inv, st1; cbn; split; lia).
